@@ -89,6 +89,17 @@ func (h Handler) ServeHTTP(w http.ResponseWriter, r *http.Request) (int, error) 
 			// an absolute-form request target without a path (GET http://host HTTP/1.1) means "/"
 			fpath = "/"
 		}
+		// Dot segments are resolved first: every path matcher in front of this handler (basicauth,
+		// internal, this rule's own path) judged the request by its cleaned path, so the script is
+		// located in the cleaned path too; /secret/x.php/../../public is a request for /public, not for
+		// /secret/x.php with path info /../../public.
+		if hasDotSegment(fpath) {
+			dir := strings.HasSuffix(fpath, "/") || strings.HasSuffix(fpath, "/.") || strings.HasSuffix(fpath, "/..")
+			fpath = path.Clean(fpath)
+			if dir && fpath != "/" {
+				fpath += "/"
+			}
+		}
 		// We trim those characters because they are served as plain text if appended after .php on Windows
 		// (a last segment made only of those characters, such as "." or "..", is a path element: trimming
 		// it would turn /dir/.. into /dir/, which is not the path the matchers before this handler saw)
@@ -474,6 +485,16 @@ func (r Rule) splitPos(path string) int {
 	// (ASCII letters only: strings.ToLower changes the byte length of some other
 	// letters, and the index is applied to the path as it was sent)
 	return strings.Index(lowerASCII(path), lowerASCII(r.SplitPath))
+}
+
+// hasDotSegment reports whether p has a "." or ".." segment.
+func hasDotSegment(p string) bool {
+	for _, seg := range strings.Split(p, "/") {
+		if seg == "." || seg == ".." {
+			return true
+		}
+	}
+	return false
 }
 
 // lowerASCII lower-cases the ASCII letters of s and leaves every other byte alone.
